@@ -473,7 +473,7 @@ class C12(Prop):
             if V.oracle_v1(l) is None:
                 continue
             for name, m in V.mutations(rng, l):
-                if name not in C12_EXPECT:
+                if name not in C12_EXPECT or len(m) > 107:
                     continue
                 # single-element corruption: the replacement contains no separator
                 for e in ("v1b", "v1s", "auto"):
@@ -481,7 +481,7 @@ class C12(Prop):
                         continue
                     ops.append("%s %s" % (e, C.hexs(m)))
                     self._meta.append(("v1", name, l, m))
-            for nxt in (b"X", b"\r", b" ", b"\x00", b"\xc3\xa9", b"0"):
+            for nxt in (b"X", b"\r", b" ", b"\x00", b"0", b"\x7f"):
                 m = l[:-1] + nxt
                 for e in ("v1b", "v1s", "auto"):
                     if e == "v1s" and not V.valid_utf8(m):
